@@ -421,7 +421,9 @@ check:
 	for _, pv := range t.Pattern {
 		if !seenPatterns[pv.Name] {
 			seenPatterns[pv.Name] = true
-			y.Pattern = append(y.Pattern, pv.Name)
+			// The slice is shared with the type this one is derived
+			// from: never append into its spare capacity.
+			y.Pattern = append(y.Pattern[:len(y.Pattern):len(y.Pattern)], pv.Name)
 		}
 	}
 
@@ -446,7 +448,7 @@ check:
 		checkPattern(ext, ext.Argument, syntax.POSIX)
 		if !seenPOSIXPatterns[ext.Argument] {
 			seenPOSIXPatterns[ext.Argument] = true
-			y.POSIXPattern = append(y.POSIXPattern, ext.Argument)
+			y.POSIXPattern = append(y.POSIXPattern[:len(y.POSIXPattern):len(y.POSIXPattern)], ext.Argument)
 		}
 	}
 
@@ -461,7 +463,7 @@ looking:
 					continue looking
 				}
 			}
-			y.Type = append(y.Type, ut.YangType)
+			y.Type = append(y.Type[:len(y.Type):len(y.Type)], ut.YangType)
 		}
 	}
 
